@@ -201,7 +201,8 @@ def upsert_siblings(chk, w, fx):
             for p_ in parts:
                 if "=" in p_:
                     col, expr = p_.split("=", 1)
-                    out[col.strip()] = re.sub(r"\s+", " ", expr.strip())
+                    # IFNULL(a, b) and the two-argument COALESCE(a, b) are the same function
+                    out[col.strip()] = re.sub(r"(?i)\bCOALESCE\(", "IFNULL(", re.sub(r"\s+", " ", expr.strip()))
         return out
     sa = [f for f in w.fns.values() if f.p == "zcash_client_sqlite::wallet::sapling::put_received_note"]
     orc = [f for f in w.fns.values() if f.p == "zcash_client_sqlite::wallet::orchard::put_received_note"]
